@@ -2,6 +2,7 @@ import StepModel.P21SafeLemmas
 import StepModel.P21SafeLoopLemmas
 import StepModel.P21SafeTermination
 import StepModel.P21SafeSteps
+import StepModel.P21SafeSteps2
 import StepModel.P21SafeDataLemmas
 import StepModel.Generated.C05Buffers
 /-! # C05 — reading and writing Part 21 is memory-safe and terminates (the part Lean can carry)
@@ -530,6 +531,28 @@ theorem C05_recoverLoop_exit (s : IS) (c : Byte) (steps : Nat) :
     exact ⟨r, a, b, by omega⟩
   obtain ⟨s', c', e, st, h1, _, _, h4⟩ := recoverLoop_ok hfs ht F s c steps (by omega) (by omega)
   exact ⟨s', c', e, st, h1, h4⟩
+
+/-- the whole `);` recovery scan (`in.clear()` first, then both loops): at most `4·(|bytes| + 1) + 1` steps -/
+theorem C05_steps_recoveryScan (s : IS) (c : Byte) :
+    ∃ r, recoveryScan (s.rest.length + 2) s c = .ok r ∧ r.steps ≤ 4 * (s.rest.length + 1) + 1 := by
+  have hcl : s.clear.m = s.rest.length + 1 := by simp [IS.clear, IS.m]
+  obtain ⟨r, a, _, b⟩ := recoverOuter_pot 0 (s.rest.length + 2) s.clear c 0 0 (by omega)
+    (by left; simp [IS.clear, IS.good])
+  have := pot_le (R := 0) s.clear
+  exact ⟨r, a, by omega⟩
+
+/-- the export-list loops with the regenerated condition: at most `4·(|bytes| + 1) + readCommentIters + 3` steps over all
+levels (two token separators with their comments per entry) -/
+theorem C05_steps_exportList (s : IS) (c : Byte) (steps : Nat) :
+    ∃ r, exportLoop C05.exportLoopChecksStreamCreate C05.skipInstanceSkipsComments C05.readCommentIters
+        (s.rest.length + 2) s c steps = .ok r ∧ r.steps ≤ steps + 4 * (s.rest.length + 1) + C05.readCommentIters + 3 := by
+  have h1 : C05.exportLoopChecksStreamCreate = true := by decide
+  have hm := IS.m_le s
+  rw [h1]
+  obtain ⟨r, a, _, b⟩ := exportLoop_pot C05.readCommentIters C05.skipInstanceSkipsComments C05.readCommentIters (Nat.le_refl _)
+    (s.rest.length + 2) s c steps (by omega)
+  have := pot_le (R := C05.readCommentIters) s
+  exact ⟨r, a, by omega⟩
 
 /-- regenerated facts the file-level budget relies on (not modelled proofs): the comment limit and the error cut-off
 are finite constants of the size the constant `c₂` of the linear bound absorbs, and `PushPastImbedAggr` does not
